@@ -105,6 +105,11 @@ func PanicFrame(stack string) string {
 
 // Run performs one sign run with the given strategy.
 func Run(w *simfs.World, strat db.UpdateStrategy, faults []simfs.Fault) (res Result) {
+	return RunOn(filesystem.NewFilesystemDatabase(w), w, strat, faults)
+}
+
+// RunOn is Run on a database object the caller keeps (the same object may be opened again for the next run).
+func RunOn(fsdb db.Database, w *simfs.World, strat db.UpdateStrategy, faults []simfs.Fault) (res Result) {
 	w.BeginRun(faults)
 	defer func() {
 		if r := recover(); r != nil {
@@ -118,7 +123,6 @@ func Run(w *simfs.World, strat db.UpdateStrategy, faults []simfs.Fault) (res Res
 		}
 	}()
 	res.Phase = "open"
-	fsdb := filesystem.NewFilesystemDatabase(w)
 	if err := fsdb.Open(); err != nil {
 		res.OpenErr = err
 		return
